@@ -46,6 +46,7 @@ func witnesses() []WitnessCase {
 			Text: []byte("variable_sources:\n  -\n" + scenReq + "scenarios:\n  - name: s\n    requests: [r]\n")}},
 		{ID: fNullItem, Scen: &ScenCase{Kind: "http", Syntax: "yaml", Passes: 1, Origin: "witness",
 			Text: []byte("requests:\n  - name: r\n    method: GET\n    uri: /x\n    postprocessors:\n      -\nscenarios:\n  - name: s\n    requests: [r]\n")}},
+		{ID: fYAMLKey, Scen: &ScenCase{Kind: "http", Syntax: "yaml", Passes: 1, Origin: "witness", Text: []byte("scenarios:\n- 0: x\n")}},
 		{ID: fHugeStepCount, Scen: &ScenCase{Kind: "http", Syntax: "yaml", Passes: 1, Origin: "witness",
 			Text: []byte(scenReq + "scenarios:\n  - name: s\n    requests: [\"r(1000000)\"]\n")}},
 		{ID: fHugeWeight, Scen: &ScenCase{Kind: "http", Syntax: "yaml", Passes: 1, Origin: "witness",
